@@ -52,11 +52,11 @@ type runStat struct {
 	MaxHeight     uint32   `json:"maxHeight"`
 	MaxSiblings   int      `json:"maxSiblings"`
 	ForkHeights   int      `json:"forkHeights"`
-	Reorgs        int      `json:"reorgs"`       // best moved to a block that is not a child of the previous best
+	Reorgs        int      `json:"reorgs"` // best moved to a block that is not a child of the previous best
 	MaxReorgDepth int      `json:"maxReorgDepth"`
 	Txs           int      `json:"txs"`
-	Reincluded    int      `json:"reincluded"`   // txs included on >= 2 blocks
-	RawBlocks     int      `json:"rawBlocks"`    // blocks deliberately violating admission rules
+	Reincluded    int      `json:"reincluded"` // txs included on >= 2 blocks
+	RawBlocks     int      `json:"rawBlocks"`  // blocks deliberately violating admission rules
 	Lookups       int      `json:"lookups"`
 	LookRecent    int      `json:"lookupsRecentPath"`
 	LookIndexed   int      `json:"lookupsIndexedPath"`
